@@ -92,6 +92,8 @@ def _once(kind, bits, env_mode, method, order, ns_val):
             with open(f2, "w") as f:
                 f.write(_yaml(kind, 12, append=(kind == "list")))
         files = [f1, os.path.join(root, "pat_*.yaml")]
+        if bits.get("dflt1_again"):
+            files.append(f1)  # the same file listed a second time, after the pattern: it is applied again, in its place
         env = {}
         if bits["envcfg"]:
             env["APP_CFG"] = _yaml(kind, 13, append=(kind == "list" and bits.get("envcfg_append", False)))
@@ -108,6 +110,8 @@ def _once(kind, bits, env_mode, method, order, ns_val):
             exp = fold(exp, kind, "replace", 11)
         if bits["dflt2"]:
             exp = fold(exp, kind, "append" if kind == "list" else "replace", 12)
+        if bits.get("dflt1_again") and bits["dflt1"]:
+            exp = fold(exp, kind, "replace", 11)
         if env_active and bits["envcfg"]:
             exp = fold(exp, kind, "append" if (kind == "list" and bits.get("envcfg_append")) else "replace", 13)
         if env_active and bits["envvar"]:
@@ -176,18 +180,18 @@ def _once(kind, bits, env_mode, method, order, ns_val):
 ORDERS = [list(p) for p in itertools.permutations(ARGV_ITEMS)]
 
 
-def precedence(kind, method, env_mode, permute=False, shard=None, nshards=1):
-    _once(kind, dict(dflt1=False, dflt2=False, envcfg=False, envvar=False, namespace=False, cfg1=False, opt=False, extra=False, cfg2=False), env_mode, method, ARGV_ITEMS, 5)
+def precedence(kind, method, env_mode, permute=False, shard=None, nshards=1, fixed=None):
+    _once(kind, dict(dflt1=False, dflt2=False, dflt1_again=False, envcfg=False, envvar=False, namespace=False, cfg1=False, opt=False, extra=False, cfg2=False), env_mode, method, ARGV_ITEMS, 5)
 
     def harness():
         bits = {}
-        names = ["dflt1", "dflt2", "envcfg", "envvar"]
+        names = ["dflt1", "dflt2", "dflt1_again", "envcfg", "envvar"]
         if method == "parse_args":
             names += ["namespace", "cfg1", "opt", "extra", "cfg2"]
         elif method in ("parse_string", "parse_object"):
             names += ["cfg1"]
         for n in names:
-            bits[n] = S.flag(n)
+            bits[n] = fixed[n] if (fixed and n in fixed) else S.flag(n)  # a shard fixes the first presence bits
         for n in ("namespace", "cfg1", "opt", "extra", "cfg2"):
             bits.setdefault(n, False)
         if kind == "list" and bits["envcfg"]:
@@ -197,9 +201,15 @@ def precedence(kind, method, env_mode, permute=False, shard=None, nshards=1):
             order = ORDERS[S.choice("order", len(ORDERS))]
         if shard is not None and S.shard(nshards) != shard:
             return None
-        ns_val = S.int("ns_val") if kind in ("flat", "nested") and method in ("parse_args", "parse_object") else 15
+        symbolic = kind in ("flat", "nested") and ((method == "parse_args" and bits["namespace"]) or (method == "parse_object" and bits["cfg1"]))
+        ns_val = S.int("ns_val") if symbolic else 15
         S.note(method)
-        return _once(kind, bits, env_mode, method, order, ns_val)
+        if symbolic or S.replaying is not None:
+            return _once(kind, bits, env_mode, method, order, ns_val)
+        from crosshair.tracers import NoTracing
+
+        with NoTracing():  # nothing symbolic flows through this path: run it outside the tracer
+            return _once(kind, bits, env_mode, method, order, ns_val)
 
     return harness
 
@@ -225,11 +235,10 @@ def main(rep, tier):
                 modes = ["default_env=False"] if tier == "quick" else ["default_env=True", "default_env=False"]
             for em in modes:
                 permute = tier == "thorough" and em == "default_env=True"
-                n = 1 if method != "parse_args" else (8 if not permute else 48)
-                for sh in range(n):
-                    kw = dict(kind=kind, method=method, env_mode=em, permute=permute)
-                    if n > 1:
-                        kw.update(shard=sh, nshards=n)
+                nfix = 1 if method != "parse_args" else (4 if not permute else 5)
+                fixnames = ["dflt1", "dflt2", "dflt1_again", "envcfg", "envvar"][:nfix]
+                for sh in range(2 ** nfix):
+                    kw = dict(kind=kind, method=method, env_mode=em, permute=permute, fixed={n: bool(sh >> i & 1) for i, n in enumerate(fixnames)})
                     jobs.append(dict(module="c04", func="precedence", kwargs=kw, timeout=300 if tier == "quick" else 3000))
     results = run_jobs(jobs)
     fails = absorb(rep, results, require_tags=tuple(METHODS))
